@@ -65,6 +65,12 @@ theorem updMod_sigs (s : St) (m : ModId) (f : Mod → Mod) (hf : ∀ md, (f md).
   unfold St.updMod; split <;> rfl
 @[simp] theorem updMod_nextCtx (s : St) (m) (f) : (s.updMod m f).nextCtx = s.nextCtx := by
   unfold St.updMod; split <;> rfl
+@[simp] theorem updMod_out (s : St) (m) (f) : (s.updMod m f).out = s.out := by
+  unfold St.updMod; split <;> rfl
+@[simp] theorem updMod_holders (s : St) (m) (f) : (s.updMod m f).holders = s.holders := by
+  unfold St.updMod; split <;> rfl
+@[simp] theorem updMod_holderPayload (s : St) (m) (f) : (s.updMod m f).holderPayload = s.holderPayload := by
+  unfold St.updMod; split <;> rfl
 @[simp] theorem updMod_length (s : St) (m) (f) : (s.updMod m f).mods.length = s.mods.length := by
   unfold St.updMod; split <;> simp
 
@@ -163,8 +169,8 @@ theorem quiet_tellIf (msg key r) : Quiet (fun s => tellIf s msg key r) := by
       split
       · rename_i q _
         split
-        · exact ⟨fun s0 => (holderRef s0 msg.holder).updMod r (fun md => { md with pipe := some (q ++ [{ msg with sub := (match key with | .sub i => some i | _ => none) }]) }),
-            Quiet.comp (quiet_updMod r (fun md => { md with pipe := some (q ++ [{ msg with sub := (match key with | .sub i => some i | _ => none) }]) }) (fun md => rfl)) (quiet_holderRef _), rfl⟩
+        · exact ⟨fun s0 => (holderRef s0 msg.holder).updMod r (fun md => { md with pipe := some (q ++ [{ msg with sub := key.subOf }]) }),
+            Quiet.comp (quiet_updMod r (fun md => { md with pipe := some (q ++ [{ msg with sub := key.subOf }]) }) (fun md => rfl)) (quiet_holderRef _), rfl⟩
         · exact ⟨_, Quiet.comp (quiet_destroyMsg _) (quiet_holderRef _), rfl⟩
       · exact ⟨_, Quiet.comp (quiet_destroyMsg _) (quiet_holderRef _), rfl⟩
     · exact ⟨_, Quiet.id, rfl⟩
